@@ -176,8 +176,8 @@ fn part_a(report: &Report, tier: Tier) {
     let mut dims: Vec<usize> = slots.iter().map(|s| s.len()).collect();
     if tier == Tier::Quick {
         // quick: two of the three argument slots at a time are enough to see interactions between
-        // values; slot arg63 is restricted to {absent, "a", "'", ","}
-        dims[8] = 4;
+        // values; slot arg63 is restricted to {absent, "", "a", "'", ","}
+        dims[8] = 5;
     }
     let n = enumerate::product_size(&dims);
     report.set("rules_in_product", json!(n));
